@@ -386,8 +386,9 @@ This returns an int when called with one argument, otherwise the
 same type as the number. ndigits may be negative.`
 
 func builtin_round(self py.Object, args py.Tuple, kwargs py.StringDict) (py.Object, error) {
-	var number, ndigits py.Object
-	ndigits = py.Int(0)
+	var number py.Object
+	// None means not given: round(2.5) is an int but round(2.5, 0) a float
+	var ndigits py.Object = py.None
 	// var kwlist = []string{"number", "ndigits"}
 	// FIXME py.ParseTupleAndKeywords(args, kwargs, "O|O:round", kwlist, &number, &ndigits)
 	err := py.UnpackTuple(args, nil, "round", 1, 2, &number, &ndigits)
